@@ -13,7 +13,7 @@ use super::Op;
 use crate::{
     ext::{compext as x, tasks as t},
     rng::Rng,
-    sexp::{Sexp, a, l, s, tagged},
+    sexp::{Sexp, a, l, tagged},
     conv,
 };
 use anthem::{
@@ -94,21 +94,7 @@ const CONSTRAINTS: &[&str] = &[
 ];
 
 fn ext_error(e: &ExternalEquivalenceTaskError) -> Sexp {
-    use ExternalEquivalenceTaskError as E;
-    let v = match e {
-        E::UnsupportedFormulaRepresentation => "UnsupportedFormulaRepresentation",
-        E::NonTightProgram(_) => "NonTightProgram",
-        E::ProgramContainsPrivateRecursion(_) => "ProgramContainsPrivateRecursion",
-        E::InputOutputPredicatesOverlap(_) => "InputOutputPredicatesOverlap",
-        E::InputPredicateInRuleHead(_) => "InputPredicateInRuleHead",
-        E::OutputPredicateInUserGuideAssumption(_) => "OutputPredicateInUserGuideAssumption",
-        E::OutputPredicateInSpecificationAssumption(_) => "OutputPredicateInSpecificationAssumption",
-        E::PlaceholdersWithIdenticalNamesDifferentSorts(_) => "PlaceholdersWithIdenticalNamesDifferentSorts",
-        E::AssumptionContainsNonInputSymbols(_) => "AssumptionContainsNonInputSymbols",
-        E::SpecificationContainsUnsupportedRoles(_) => "SpecificationContainsUnsupportedRoles",
-        E::ProofOutlineError(inner) => return tagged("err", vec![s("ProofOutlineError"), s(t::po_error(inner))]),
-    };
-    tagged("err", vec![s(v)])
+    t::ext_error(e)
 }
 
 fn side(rng: &mut Rng) -> String {
